@@ -85,6 +85,25 @@ def gen_scenarios(seed, tier):
                     if op[0] == "submit" and rng.random() < 0.7:
                         extra += [["addcb", op[1], "raise"], ["addcb", op[1], "plain"], ["addcb", op[1], "slow"]]
                 ops[:] = extra
+        if idx_of(d) % 12 == 5:
+            # blocking throttle whose count callable fails on several evaluations in a row while submitters really have to wait for
+            # room: every evaluation - on a submitter's thread as on the hand-over thread - goes through the guard that logs the fault
+            # and falls back to the previous value; submit() does not raise, no thread dies, nothing stays pending
+            k = rng.randint(1, 3)
+            d["layers"] = [["throttle", {"block": True, "count": [1] * k + ["raise"] * rng.randint(2, 4) + [1, 1, rng.choice([1, 2])]}]]
+            if rng.random() < 0.4:
+                d["layers"].append(["retry", {"max_attempts": 2, "sleep": 1.0, "exponent": 1.0, "max_sleep": 3.0, "exception_base": ["E0"]}])
+            d["base"] = rng.choice(["simpool1", "simpool2"])
+            cl = []
+            kk = 0
+            for c in range(rng.choice([1, 2, 2])):
+                ops = []
+                for _ in range(rng.randint(2, 4)):
+                    ops.append(["submit", "k%d" % kk, [[["sleep", rng.choice([0.5, 1.0, 2.0])], ["ret", kk]]]])
+                    kk += 1
+                cl.append(ops)
+            d["clients"] = cl
+            d["family"] = "blocking-count-faults"
         # the probe: a fresh submission long after the faults, which must be served
         d["clients"].append([["sleep", 45.0], ["submit", "probe", [[["ret", 4242]]]], ["result", "probe", 10.0]])
         yield d
